@@ -1050,7 +1050,8 @@ DEVIATIONS = ['none', 'forged-sig', 'tampered', 'wrong-signer', 'subst-key-same'
 # KeyLocator of ONE element given as a FULL name <certificate name>/sha256digest=<d>: the right digest of the signer's
 # retrievable certificate, or a digest that nothing retrievable has
 FULLNAME_WRONG = ['flipped', 'flipped-first', 'zeros', 'short', 'long', 'empty', 'other-cert', 'superseded']
-DEVIATIONS += ['fullname-right'] + ['fullname-' + k for k in FULLNAME_WRONG]
+FULLNAME_FORMS = ['right'] + FULLNAME_WRONG
+DEVIATIONS += ['fullname-' + k for k in FULLNAME_FORMS]
 
 
 def fullname_world(env, rng, h, depth, forms, anchor_served=False):
@@ -1270,9 +1271,9 @@ def gen_single(ctx, env):
         for depth in range(0, 4):
             for link in range(0, depth + 1):
                 for dev in DEVIATIONS:
-                    if (dev.startswith('fullname-') and dev != 'fullname-right' and not ctx.thorough
-                            and (FULLNAME_WRONG.index(dev[9:]) + 3 * rnd + depth + link) % 4):
-                        continue        # quick: 2 of the 8 wrong digests per (round, depth, link), in rotation
+                    if (dev.startswith('fullname-') and not ctx.thorough
+                            and (FULLNAME_FORMS.index(dev[9:]) + 4 * rnd + 2 * depth + link) % 9 not in (0, 4)):
+                        continue        # quick: 2 of the 9 full-name forms per (round, depth, link), in rotation
                     h = Hier(env, rng)
                     r = deviate(env, rng, h, depth, link, dev)
                     if r is None:
